@@ -89,11 +89,14 @@ def run_case(desc, ctx):
     # configuration: the edge container not completed from the faces (config.complete_edges_from_faces = False, only the declared edges -
     # here none - are stored).  Everything that is answered from the edge container (edge ids, vertex rings, border classification) then
     # legitimately describes that container; the corner / half-edge / face answers must still be those of the face list.
+    user_class = desc["seed"] % 7 == 2
+    if user_class:
+        ctx.cls("class:user_subclass_of_SurfaceMesh")
     no_edges = desc["seed"] % 8 == 5
     if no_edges:
         ctx.cls("config:complete_edges_from_faces=False")
     with build.config(sort_neighborhoods=sorted_on, complete_edges_from_faces=not no_edges):
-        ok, m0 = ctx.call("construct", build.surface, V, F, desc["vrows"], desc["irows"])
+        ok, m0 = ctx.call("construct", build.surface, V, F, desc["vrows"], desc["irows"], None, user_class)
         canonical = list(range(nacc))
         T0 = surfconn.run_script(ctx, m0, S, canonical)
         edges = build.edges_list(m0)
@@ -108,7 +111,7 @@ def run_case(desc, ctx):
             rest = [i for i in range(nacc) if i != first]
             rng.shuffle(rest)
             order = [first] + rest
-            ok, m = ctx.call("construct", build.surface, V, F, desc["vrows"], desc["irows"])
+            ok, m = ctx.call("construct", build.surface, V, F, desc["vrows"], desc["irows"], None, user_class)
             clear_at = rng.randrange(2, nacc) if j % 3 == 2 else None
             T = surfconn.run_script(ctx, m, S, order, clear_at=clear_at)
             for name, _ in S:
@@ -123,7 +126,7 @@ def run_case(desc, ctx):
     if desc["seed"] % 3 == 0 and not no_edges:
         ctx.cls("history:switch_sorting_then_clear")
         with build.config(sort_neighborhoods=not sorted_on):
-            ok, m = ctx.call("construct", build.surface, V, F, desc["vrows"], desc["irows"])
+            ok, m = ctx.call("construct", build.surface, V, F, desc["vrows"], desc["irows"], None, user_class)
             surfconn.run_script(ctx, m, S, list(range(nacc)), monitor="prequery")
         with build.config(sort_neighborhoods=sorted_on):
             rings = [i for i, (nm, _) in enumerate(S) if nm in ("vertex_to_vertices", "vertex_to_edges", "vertex_to_faces", "vertex_to_corners")]
